@@ -26,7 +26,7 @@ func init() {
 		Workers:     4,
 		Race:        true,
 		CaseTimeout: 240e9,
-		Rule: "real parallel executions under the Go race detector: 2-16 clients call ProcessPushPull at the same instant on a shared key and on their own keys (each call with its own context, cancelled on return), mixed with ProcessClient and PatchDocument calls, in several waves, with random yields / sleeps injected at the push-pull hook points and at database commands; monitors: (1) critical-section overlap from the cs-enter / cs-exit hook events per (collection, key); (2) linearizability of the recorded call/return history of every key against the sequential push-pull specification (porcupine, partitioned by key; operations carry unique ids; an error reply is a no-op); (3) store invariants of C06 at the end; (4) independence: one key's handler is held inside its critical section by a gate on its database write while requests on other keys must return; (5) every request returns (watchdog classification), including pull-only requests of a client that gives up (context cancelled before the call, 0.1-2 ms into it, or exactly when its handler is about to take the key's lock - hook pp.before-lock), and afterwards sequential fault-free syncs of all clients reach quiescence (a leaked lock or a blocked key shows here); (6) race-detector reports attributed to orda code (none of the accesses in harness code), deduplicated by the pair of innermost orda functions; " +
+		Rule: "real parallel executions under the Go race detector: 2-16 clients call ProcessPushPull at the same instant on a shared key and on their own keys (each call with its own context, cancelled on return), mixed with ProcessClient and PatchDocument calls, in several waves, with random yields / sleeps injected at the push-pull hook points and at database commands; monitors: (1) critical-section overlap from the cs-enter / cs-exit hook events per (collection, key); (2) linearizability of the recorded call/return history of every key against the sequential push-pull specification (porcupine, partitioned by key; operations carry unique ids; an error reply is a no-op); (3) store invariants of C06 at the end; (4) independence: one key's handler is held inside its critical section by a gate on its database write while requests on other keys (one existing, 40 fresh ones) must return and must not be refused for their lock; (5) every request returns (watchdog classification), including pull-only requests of a client that gives up (context cancelled before the call, 0.1-2 ms into it, or exactly when its handler is about to take the key's lock - hook pp.before-lock), and afterwards sequential fault-free syncs of all clients reach quiescence (a leaked lock or a blocked key shows here); (6) race-detector reports attributed to orda code (none of the accesses in harness code), deduplicated by the pair of innermost orda functions; " +
 			"non-trivial = >= 3 clients pushed operations to the shared key in the same wave; distinct = hash of the observed per-key critical-section entry order (the interleaving actually seen)",
 		Assumptions: []string{
 			"only the in-process local lock is exercised (no Redis in the sandbox); a single server process",
@@ -596,7 +596,40 @@ func runC12(c *core.Case) *core.Result {
 				oreq := other.cl.BuildRequest(other.own)
 				w.ledger.Offer(oreq)
 				ex := other.cl.Send(oreq)
+				// ... and so must requests on MANY other keys (whatever the lock registry does
+				// with names - hashing, striping, prefixes - distinct keys never wait for each other)
+				blocked := ""
+				prober := w.b.NewClient("colA", fmt.Sprintf("ind%d", c.Index))
+				for j := 0; j < 40 && blocked == ""; j++ {
+					pk := fmt.Sprintf("ind-%d-%d", c.Index, j)
+					pd := prober.Open(pk, "counter", bed.Create)
+					if pd == nil {
+						break
+					}
+					if j == 0 {
+						prober.Register()
+					}
+					preq := prober.BuildRequest(pd)
+					w.ledger.Offer(preq)
+					pex := prober.Send(preq)
+					switch {
+					case pex.Out.TimedOut:
+						blocked = fmt.Sprintf("a request creating key %q did not return", pk)
+					case pex.Out.Err == nil && pex.Resp != nil:
+						for _, pp := range pex.Resp.PushPullPacks {
+							if bed.IsErrorPack(pp) && len(pp.Operations) > 0 && strings.Contains(string(pp.Operations[0].Body), "fail to lock") {
+								blocked = fmt.Sprintf("a request creating key %q was refused because its lock could not be taken", pk)
+							}
+						}
+						prober.Apply(pex.Resp)
+					}
+					c.Count("independence_probe_keys", 1)
+				}
 				close(gate)
+				if blocked != "" {
+					<-done
+					return c.Violation("cross-key-blocking", "while the handler of key %q was inside its critical section, %s", sharedKey, blocked)
+				}
 				if ex.Out.TimedOut {
 					<-done
 					return c.Violation("cross-key-blocking", "while the handler of key %q was inside its critical section, a request for key %q did not return", sharedKey, other.own.Key)
